@@ -133,10 +133,13 @@ def sc_lockstep_pushes(eng, fid, fn, it, ob):
         pushes = {}
         for b, t in b2.calls():
             if (t["callee"].get("path") or "").endswith("Vec::<T, A>::push"):
-                s = b2.op_str(t["args"][0])
-                for fld in ("moof_offsets", "trafs"):
-                    if s.endswith("." + fld) and s.startswith("track"):
-                        pushes.setdefault(fld, []).append(b)
+                # the vector pushed to is the field `trafs` / `moof_offsets` of an Mp4Track (whatever the variable is called)
+                pl_ = op_place(t["args"][0])
+                sd_ = b2.single_def(pl_["l"]) if pl_ is not None and not pl_["p"] else None
+                proj_ = sd_[3]["place"]["p"] if sd_ is not None and sd_[2] == "assign" and sd_[3]["k"] == "ref" else []
+                last_ = proj_[-1] if proj_ and isinstance(proj_[-1], dict) else {}
+                if last_.get("f") in ("moof_offsets", "trafs") and short(last_.get("adt") or "") == "Mp4Track":
+                    pushes.setdefault(last_["f"], []).append(b)
         if pushes:
             n += 1
             if len(pushes.get("moof_offsets", [])) != len(pushes.get("trafs", [])):
@@ -144,7 +147,7 @@ def sc_lockstep_pushes(eng, fid, fn, it, ob):
             for a, b in zip(sorted(pushes["moof_offsets"]), sorted(pushes["trafs"])):
                 if not (b2.dominates(a, b) or b2.dominates(b, a)):
                     return False, "pushes in %s are on different paths" % short(f2["id"])
-    return n >= 2, "%d functions push to Mp4Track.trafs and .moof_offsets, always together" % n
+    return n >= 1, "%d functions push to Mp4Track.trafs and .moof_offsets, always together" % n
 
 
 LEN_PRESERVING = ("get", "get_mut", "index", "index_mut", "iter", "iter_mut", "len", "is_empty", "last", "last_mut", "first", "first_mut",
